@@ -21,8 +21,8 @@ import numpy as np
 ID = "C08"
 LEVEL = "exploration"
 DECIDING = ["C08.digest_equals_fresh_process", "C08.rng_trace", "C08.prefix"]
-RULE = ("histories = random interleavings (length 6-20) of {construct (alg,N) [optionally after building a larger polytope grid of the same "
-        "algorithm], call getter g on live object k (repeats allowed), np.random.seed(s), draw r numbers from the global generator, "
+RULE = ("histories = random interleavings (length 6-20) of {construct (alg,N) [optionally with time_generation=True, optionally after building a larger polytope grid of the same "
+        "algorithm], call getter g on live object k (repeats allowed; exact and approximate areas in any order), np.random.seed(s), draw r numbers from the global generator, "
         "get_convex_hulls (in-place helper-point filter), PositionGrid/FullGrid getters}; every getter result is compared bitwise with the "
         "digest from a fresh interpreter; prefix pairs (N, N+M) for ico, cube3D, cube4D. 3-D N<=60 (quick) / <=200 (thorough), 4-D N<=16 / "
         "<=40. Non-trivial = history with >=2 constructions and >=1 reseed/draw between constructions or getters; distinct by history digest")
@@ -32,7 +32,7 @@ EXHAUSTIVE = {"quick": False, "thorough": False}
 MIN_NONTRIVIAL = {"quick": 20, "thorough": 150}
 SHARD_TIMEOUT = {"quick": 1200, "thorough": 7200}
 
-G3 = ("grid", "adjacency", "borders", "distances", "areas")
+G3 = ("grid", "adjacency", "borders", "distances", "areas", "areas_approx")
 G4 = ("grid", "grid_full", "adjacency", "borders", "distances", "volumes")
 GP = ("pos_array", "pos_volumes", "pos_adjacency", "pos_borders", "pos_distances")
 
@@ -57,13 +57,14 @@ def dg(x):
     return h.hexdigest()
 
 
-def build(kind, alg, N, t=None):
+def build(kind, alg, N, t=None, timed=False):
+    kw = {"time_generation": True} if timed else {}   # a legal factory option that must not change the result
     if kind == "3d":
         from molgri.space.rotobj import SphereGrid3DFactory
-        return SphereGrid3DFactory.create(alg_name=alg, N=N)
+        return SphereGrid3DFactory.create(alg_name=alg, N=N, **kw)
     if kind == "4d":
         from molgri.space.rotobj import SphereGrid4DFactory
-        return SphereGrid4DFactory.create(alg_name=alg, N=N)
+        return SphereGrid4DFactory.create(alg_name=alg, N=N, **kw)
     from molgri.space.fullgrid import PositionGrid
     return PositionGrid(o_grid_name=f"{alg}_{N}", t_grid_name=t)
 
@@ -72,7 +73,8 @@ def call(kind, obj, g):
     if kind == "3d":
         return {"grid": lambda: obj.get_grid_as_array(), "adjacency": lambda: obj.get_voronoi_adjacency(),
                 "borders": lambda: obj.get_cell_borders(), "distances": lambda: obj.get_center_distances(),
-                "areas": lambda: obj.get_spherical_voronoi().get_voronoi_volumes()}[g]()
+                "areas": lambda: obj.get_spherical_voronoi().get_voronoi_volumes(),
+                "areas_approx": lambda: obj.get_spherical_voronoi().get_voronoi_volumes(approx=True)}[g]()
     if kind == "4d":
         return {"grid": lambda: obj.get_grid_as_array(only_upper=True), "grid_full": lambda: obj.get_grid_as_array(only_upper=False),
                 "adjacency": lambda: obj.get_voronoi_adjacency(), "borders": lambda: obj.get_cell_borders(),
@@ -202,7 +204,7 @@ def make_history(rng, tier):
             if alg in ("ico", "cube3D", "cube4D") and rng.random() < 0.3:
                 big = N + rng.randint(1, 30 if POLY[alg] == "3d" else 8)
                 ops.append(["construct_discard", POLY[alg], alg, big, None])
-            ops.append(["construct", kind, alg, N, t])
+            ops.append(["construct", kind, alg, N, t] + (["timed"] if kind != "pos" and rng.random() < 0.25 else []))
             objs.append((kind, alg, N, t))
         elif r < 0.7:
             k = rng.randrange(len(objs))
@@ -229,8 +231,8 @@ def run_history(REC, ops, golden):
     for op in ops:
         try:
             if op[0] in ("construct", "construct_discard"):
-                _, kind, alg, N, t = op
-                obj = build(kind, alg, N, t)
+                _, kind, alg, N, t = op[:5]
+                obj = build(kind, alg, N, t, timed=(len(op) > 5))
                 if op[0] == "construct":
                     live.append((kind, alg, N, t, obj))
                     nconstruct += 1
